@@ -153,6 +153,9 @@ func memShow(sb *strings.Builder, v reflect.Value) {
 	case reflect.Struct:
 		sb.WriteString("(st")
 		for i := 0; i < v.NumField(); i++ {
+			if v.Type().Field(i).Name == "_" {
+				continue
+			}
 			sb.WriteString("_")
 			memShow(sb, v.Field(i))
 		}
